@@ -1,4 +1,4 @@
-\* the code as it is against the PURE property: TLC must find H8 (expected violation)
+\* PRE-FIX model (FixLongWs = FALSE) against the PURE property: a batch after >= 128 bytes of whitespace is not processed (expected violation)
 CONSTANTS
   Methods <- MCMethods
   EntryAlphabet <- EntriesSmall
